@@ -13,7 +13,7 @@ from .. import e2e
 from ..common import Hang, Rng, hx, unhx, watchdog
 from ..runner import Check
 from ..translate import c06_tables, formats
-from . import c06_dedupe, c06_dirs, c06_walk
+from . import c06_dedupe, c06_dirs, c06_ids, c06_walk
 
 # ------------------------------------------------------------------ pools (names that collide after normalisation)
 NAMES = [
@@ -1779,6 +1779,12 @@ def search_embed_disagreements(ck: Check) -> None:
         c06_walk.search(ck)
         if ck.failures:
             return
+    if any(isinstance(d.input, dict) and "ids_root" in d.input for d in ck.disagreements) or any(
+        b in ck.broken for b in ("declared_id_is_registered", "anchor_ref_resolves_to_walk_path", "nested_anchor_lands_on_enclosing_definition", "resolveRefId_not_idempotent_under_relative_root_id")
+    ):
+        c06_ids.search(ck)
+        if ck.failures:
+            return
     campaign_e2e_anchor_scope(ck, anchor_names_of_disagreements([d.input for d in ck.disagreements]), " [search]")
     if ck.failures:
         return
@@ -1843,6 +1849,9 @@ def run(ck: Check) -> None:
         "percent-encoded and literal spellings of one name are different names; OpenAPI schema objects have no `$id` (no anchors there); "
         "`other.json#name` (an anchor of another file) is not supported by the generator and not part of the family",
         "pathlib on POSIX without symlinks below the base path",
+        "Dcg/Model/IdRegistry restates JsonSchemaParser.parse_id, ModelResolver.add_id / ids and resolve_ref with root_id, root_id_base_path and the regular files of the input directory "
+        "(current_base_path = base_path, no base_url; URLs over letters, digits and . - _ ~ : / with a plain path; a URL of the root id's host outside its directory is probed through `..`: "
+        "assumed not to exist, as in the harness); agreement is tested in this run on a real parser object (ids table after the prelude, resolve_ref of a reference pool and of its own answers)",
         "theorems hold for every class-name generator; `name_is_classform` speaks of that function, the concrete default form is only tested",
         "multi-document input: files of one flat directory, references `other.json#/pointer`, `other.json`, `#/pointer`; Model/ResolverMultidoc starts from the "
         "reserved/loaded state observed at the first call of _resolve_unparsed_json_pointer (the per-document prelude is not modelled for document sets)",
@@ -1872,6 +1881,8 @@ def run(ck: Check) -> None:
         "basepath": "distinct operation sequences in which one reference string got different answers in different directories",
         "walk": "distinct inputs (members with keyword chains and targets, kind) on which the oracle passed",
         "walk-model": "distinct schema trees with >= 2 references",
+        "ids-model": "distinct (root, root id, files, walks) whose id table holds >= 2 ids after the prelude",
+        "ids-e2e": "distinct documents (root id, targets, referring members, kind) on which the oracle passed",
         "e2e": "distinct documents (keys in order, edges, container, kind) on which the oracle passed; failures matching a known finding are counted in known_finding_hits_in_campaigns",
     }
     campaign_sequences(ck, 400 if quick else 3000)
@@ -1880,6 +1891,8 @@ def run(ck: Check) -> None:
     campaign_worklist(ck, 120 if quick else 1200)
     c06_walk.campaign_walk_model(ck, 300 if quick else 3000)
     c06_walk.campaign_walk(ck, 150 if quick else 1200)
+    c06_ids.campaign_ids_model(ck, 250 if quick else 4000)
+    c06_ids.campaign_ids_e2e(ck, 40 if quick else 600)
     campaign_e2e(ck, 100 if quick else 600)
     c06_dedupe.campaign_collide(ck, 80 if quick else 800, 3 if quick else 4)
     c06_dedupe.campaign_pass(ck, 300 if quick else 3000, 4 if quick else 5)
@@ -1898,6 +1911,19 @@ def run(ck: Check) -> None:
 
 def replay(ck: Check, path: str) -> int:
     data = json.loads(open(path).read())
+    _inp = data.get("input") or (data.get("first_disagreement") or {}).get("input") or {}
+    if isinstance(_inp, dict) and (_inp.get("ids_doc") or "ids_root" in _inp):
+        if _inp.get("ids_doc"):
+            c06_ids.ids_oracle(ck, ck.campaign("replay"), _inp)
+        else:
+            c06_ids.campaign_ids_model(ck, 0, " [replay]", cases=[_inp])
+        for f in ck.failures:
+            print("REPLAY-FAILS:", json.dumps(f.classification), f.observed[:300])
+        for d in ck.disagreements:
+            print("REPLAY-DISAGREES:", d.campaign, "model=", str(d.model)[:300], "impl=", str(d.impl)[:300])
+        if not ck.failures and not ck.disagreements:
+            print("replay: model and implementation agree and the oracle does not fail on this input")
+        return 1 if ck.failures or ck.disagreements else 0
     inp = data.get("input") or (data.get("first_disagreement") or {}).get("input") or {}
     if inp.get("dedupe_pass"):
         c06_dedupe.campaign_pass(ck, 0, 0, " [replay]", cases=[{k: v for k, v in inp.items() if k != "dedupe_pass"}])
